@@ -507,8 +507,8 @@ impl Prop for History {
                 Stream::new("long", 800, 8000).asan(800),
                 Stream::new("corpus", 64, 1600).asan(64),
             ],
-            Which::NoStale => vec![Stream::new("random", 16000, 160000).miri(6), Stream::new("exhaustive", 448, 448).miri(0)],
-            Which::Registry => vec![Stream::new("core", 4000, 40000).miri(4), Stream::new("bridge", 1000, 10000).miri(2)],
+            Which::NoStale => vec![Stream::new("random", 48000, 480000).miri(6), Stream::new("exhaustive", 448, 448).miri(0)],
+            Which::Registry => vec![Stream::new("core", 16000, 160000).miri(4), Stream::new("bridge", 4000, 40000).miri(2)],
         }
     }
     fn floors(&self) -> Vec<(&'static str, u64, u64)> {
